@@ -98,7 +98,8 @@ def _helper_read_crd(lit: LineIterator) -> tuple:
     atmasses = []
     for i in range(natom):
         line = next(lit)
-        words = line.split()
+        # The coordinates are fixed-width fields (3F10.5, columns 21-50), which touch for wide values.
+        words = [*line[:20].split(), line[20:30], line[30:40], line[40:50], *line[50:].split()]
         resnums.append(int(words[1]))
         resnames.append(words[2])
         attypes.append(words[3])
